@@ -74,6 +74,10 @@ func oracleC09(r *OpRun) {
 					bad("B5", "snapshots-missing", "`snapshots` missing, binding includes %v", want)
 					return
 				}
+				// exactly the included bindings, nothing of other contexts of the same array
+				if got := sortedKeys(c.Snapshots); fmt.Sprint(got) != fmt.Sprint(want) {
+					bad("B5", "snapshots-keys", "`snapshots` has keys %v, the binding includes %v", got, want)
+				}
 				// element shape per included binding
 				for name, list := range c.Snapshots {
 					ib := r.sc.bind(x.Hook, name)
@@ -859,9 +863,27 @@ func oracleC11(r *OpRun) {
 		}
 	}
 	enabled := map[string]bool{} // hook -> its schedule bindings have been seen enabled
+	attrs := func(h *HookSpec, sb *SchedBinding) string {
+		q := sb.Queue
+		if q == "" {
+			q = "main"
+		}
+		return fmt.Sprintf("queue=%q group=%q allowFailure=%v snapshots=%v", q, sb.Group, sb.AllowFailure, expectedSnapshotKeysUnsorted(h, sb))
+	}
 	for _, bt := range batches {
 		simrt.Count("probe:schedule-firing-handled")
-		seen := map[string]bool{}
+		// bindings are matched as a multiset: several bindings of a hook may carry the same name
+		// (`name` is optional, unnamed bindings are all called "schedule")
+		want := map[string][]string{} // hook|name -> attributes of each binding with this crontab
+		for _, h := range r.sc.Hooks {
+			for i := range h.Sched {
+				if h.Sched[i].Crontab == bt.crontab {
+					k := h.Path + "|" + h.Sched[i].Name
+					want[k] = append(want[k], attrs(h, &h.Sched[i]))
+				}
+			}
+		}
+		got := map[string][]string{}
 		for _, a := range bt.tasks {
 			k := a.Hook + "|" + a.Binding
 			b := r.sc.bind(a.Hook, a.Binding)
@@ -869,29 +891,40 @@ func oracleC11(r *OpRun) {
 				r.e.Viol("C11", "T3", "task-for-unknown-binding", "firing of %q produced a task for %s which is not a schedule binding", bt.crontab, k)
 				continue
 			}
-			if b.Sched.Crontab != bt.crontab {
-				r.e.Viol("C11", "T3", "task-for-other-crontab", "firing of %q produced a task for %s whose crontab is %q", bt.crontab, k, b.Sched.Crontab)
+			if _, ok := want[k]; !ok {
+				r.e.Viol("C11", "T3", "task-for-other-crontab", "firing of %q produced a task for %s which has no binding with that crontab", bt.crontab, k)
+				continue
 			}
-			if seen[k] {
-				r.e.Viol("C11", "T1", "duplicate-task", "firing of %q produced more than one task for %s", bt.crontab, k)
+			got[k] = append(got[k], fmt.Sprintf("queue=%q group=%q allowFailure=%v snapshots=%v", a.Queue, a.Group, a.Allow, a.Snapshots))
+		}
+		for k, g := range got {
+			w := append([]string(nil), want[k]...)
+			if len(g) > len(w) {
+				r.e.Viol("C11", "T1", "duplicate-task", "firing of %q produced %d tasks for %s, which has %d binding(s) with that crontab", bt.crontab, len(g), k, len(w))
+				continue
 			}
-			seen[k] = true
-			wantQ := b.Sched.Queue
-			if wantQ == "" {
-				wantQ = "main"
-			}
-			if a.Queue != wantQ || a.Group != b.Sched.Group || a.Allow != b.Sched.AllowFailure || fmt.Sprint(a.Snapshots) != fmt.Sprint(expectedSnapshotKeysUnsorted(r.hookSpec(a.Hook), b.Sched)) {
-				r.e.Viol("C11", "T5", "task-attributes", "task for %s carries queue=%q group=%q allowFailure=%v snapshots=%v; the binding declares queue=%q group=%q allowFailure=%v includeSnapshotsFrom=%v", k, a.Queue, a.Group, a.Allow, a.Snapshots, wantQ, b.Sched.Group, b.Sched.AllowFailure, b.Sched.IncludeSnapshots)
+			for _, ga := range g {
+				found := false
+				for i, wa := range w {
+					if wa == ga {
+						w = append(w[:i], w[i+1:]...)
+						found = true
+						break
+					}
+				}
+				if !found {
+					r.e.Viol("C11", "T5", "task-attributes", "task for %s carries %s; its binding(s) with that crontab declare %v", k, ga, want[k])
+				}
 			}
 		}
-		for _, h := range r.sc.Hooks {
-			for _, sb := range h.Sched {
-				if sb.Crontab != bt.crontab {
-					continue
+		for k, w := range want {
+			hook := strings.SplitN(k, "|", 2)[0]
+			if enabled[hook] && len(got[k]) < len(w) {
+				sig := "binding-without-task"
+				if len(w) > 1 {
+					sig = "binding-without-task:same-name-bindings"
 				}
-				if enabled[h.Path] && !seen[h.Path+"|"+sb.Name] {
-					r.e.Viol("C11", "T2", "binding-without-task", "firing of %q produced no task for enabled binding %s of %s (tasks: %d)", bt.crontab, sb.Name, h.Path, len(bt.tasks))
-				}
+				r.e.Viol("C11", "T2", sig, "firing of %q produced %d task(s) for %s, which has %d enabled binding(s) with that crontab (tasks of the firing: %d)", bt.crontab, len(got[k]), k, len(w), len(bt.tasks))
 			}
 		}
 		for _, a := range bt.tasks {
